@@ -26,7 +26,7 @@ K = W.K
 R = W.ROOT
 
 RULE = ('histories of attribute operations (path/files/filepaths setters and list mutations, '
-        'edits of the four filter lists: assignment (also of the value the list already has, of values with duplicates, x = x, x += [...]), slice and index assignment, append, extend, del, clear, batch updates with an invalid regular expression, through the attribute or a held list object; name, piece_size, piece_size_min/max, generate, comment) on a fresh '
+        'edits of the four filter lists: assignment (also of the value the list already has, of values with duplicates, x = x, x += [...]), slice and index assignment, append, insert, extend, del (item and slice), pop, remove, clear, reverse, batch updates with an invalid regular expression, through the attribute or a held list object; name, piece_size, piece_size_min/max, generate, comment) on a fresh '
         'Torrent over five content trees with the real default bounds: corpus + enumerated '
         '(hash-then-every-pair-of-operations, also from a piece length of 32 MiB under an explicit '
         'maximum followed by a bound reset, and bound-assignment-across-the-other-bound followed by '
@@ -107,8 +107,9 @@ def _fl(kind, suffix, inc=False, held=False, vs=None, v=None, **kw):
     return op
 
 
-FL_KINDS = ['Append'] * 3 + ['Extend'] * 2 + ['Iadd'] + ['Set'] * 4 + ['SetSelf', 'SliceSelf'] + ['IaddAttr'] * 2 + \
-           ['SetSlice'] * 3 + ['SetIndex'] * 3 + ['Del', 'Clear']
+FL_KINDS = ['Append'] * 3 + ['Extend'] * 2 + ['Iadd'] * 2 + ['Set'] * 4 + ['SetSelf', 'SliceSelf'] + ['IaddAttr'] * 2 + \
+           ['SetSlice'] * 3 + ['SetIndex'] * 3 + ['Del', 'Clear'] + \
+           ['Reverse'] * 3 + ['Insert'] * 2 + ['Pop'] * 2 + ['Remove'] * 2 + ['DelSlice'] * 2
 
 
 def g_flist_op(rng, cur, kind, inc, held):
@@ -160,7 +161,21 @@ def g_flist_op(rng, cur, kind, inc, held):
         op = _fl(kind, suffix, inc, held, v=v, i=rng.randint(-n - 1, n))
     elif suffix == 'Del':
         op = _fl(kind, suffix, inc, held, i=rng.randrange(4))
-    else:
+    elif suffix == 'Insert':
+        n = len(l)
+        v = rng.choice(RX_INVALID) if kind == 'rx' and rng.random() < 0.15 else val(0.3)
+        op = _fl(kind, suffix, inc, held, v=v, i=rng.randint(-n - 2, n + 2))
+    elif suffix == 'Pop':
+        n = len(l)
+        op = _fl(kind, suffix, inc, held, i=None if rng.random() < 0.4 else rng.randint(-n - 1, n))
+    elif suffix == 'Remove':
+        v = rng.choice(RX_INVALID) if kind == 'rx' and rng.random() < 0.1 else val(0.75)
+        op = _fl(kind, suffix, inc, held, v=v)
+    elif suffix == 'DelSlice':
+        n = len(l)
+        a = rng.randint(0, n + 1)
+        op = _fl(kind, suffix, inc, held, a=a, b=rng.choice([None, a, a + 1, a + 1, n, rng.randint(0, n + 1)]))
+    else:                                                              # Clear, Reverse
         op = _fl(kind, suffix, inc, held)
     valid = W.rx_valid if kind == 'rx' else (lambda v: True)
     cur[(kind, inc)] = W.ref_list(l, W.flist(op), valid)[0]
@@ -461,7 +476,8 @@ def enumerated_reassign(ctx):
         v1, v2, v3 = vals[kind]
         for inc in (False, True):
             firsts = [[_fl(kind, 'Set', inc, vs=[v1])], [_fl(kind, 'Set', inc, vs=[v1, v2])],
-                      [_fl(kind, 'Append', inc, v=v1)], [_fl(kind, 'IaddAttr', inc, vs=[v1, v2])]]
+                      [_fl(kind, 'Append', inc, v=v1)], [_fl(kind, 'IaddAttr', inc, vs=[v1, v2])],
+                      [_fl(kind, 'Set', inc, vs=[v1, v2, v3])]]
             for held in (False, True):
                 second = [
                     _fl(kind, 'Set', inc, vs=[v1]), _fl(kind, 'Set', inc, vs=[v1, v2]), _fl(kind, 'Set', inc, vs=[v2, v1]),
@@ -473,6 +489,18 @@ def enumerated_reassign(ctx):
                     _fl(kind, 'SetSlice', inc, held, vs=[v1], a=1, b=None), _fl(kind, 'SetSlice', inc, held, vs=[v2, v2], a=0, b=1),
                     _fl(kind, 'SetSlice', inc, held, vs=[v3, v1, v3], a=1, b=1), _fl(kind, 'Set', inc, vs=[v2, v1, v2, v3, v1]),
                 ]
+                # the remaining in-place edits (reverse as repaired by 3d3793a, pop, remove, insert, del slice)
+                second += [
+                    _fl(kind, 'Reverse', inc, held), _fl(kind, 'Pop', inc, held, i=None), _fl(kind, 'Pop', inc, held, i=0),
+                    _fl(kind, 'Pop', inc, held, i=3), _fl(kind, 'Pop', inc, held, i=-2),
+                    _fl(kind, 'Remove', inc, held, v=v1), _fl(kind, 'Remove', inc, held, v=v3),
+                    _fl(kind, 'Insert', inc, held, v=v3, i=0), _fl(kind, 'Insert', inc, held, v=v1, i=1),
+                    _fl(kind, 'Insert', inc, held, v=v3, i=-1), _fl(kind, 'Insert', inc, held, v=v3, i=9),
+                    _fl(kind, 'DelSlice', inc, held, a=0, b=1), _fl(kind, 'DelSlice', inc, held, a=1, b=None),
+                    _fl(kind, 'DelSlice', inc, held, a=2, b=1),
+                ]
+                if kind == 'rx':
+                    second += [_fl(kind, 'Insert', inc, held, v='(', i=0), _fl(kind, 'Remove', inc, held, v='[a')]
                 if kind == 'rx':
                     second += [_fl(kind, 'Set', inc, vs=[v1, '(']), _fl(kind, 'SetIndex', inc, held, v='[a', i=0),
                                _fl(kind, 'SetIndex', inc, held, v='(', i=7), _fl(kind, 'SetSlice', inc, held, vs=[v1, '*x'], a=0, b=None)]
@@ -487,6 +515,10 @@ def enumerated_reassign(ctx):
                                 out.append(pre + f + mid + [a])
                                 if ctx.thorough:
                                     out.append(pre + f + mid + [a, {'k': 'generate'}, _fl(kind, 'Set', inc, vs=[v1])])
+                                if a['k'].endswith('Reverse'):
+                                    # a reversed list is edited / reversed again, and hashed in between
+                                    out.append(pre + f + mid + [a, {'k': 'generate'}, _fl(kind, 'Reverse', inc, not held)])
+                                    out.append(pre + f + mid + [a, _fl(kind, 'Pop', inc, held, i=None), {'k': 'generate'}, _fl(kind, 'Append', inc, v=v1)])
     return out
 
 
@@ -646,7 +678,7 @@ def _count_flist(ctx, f, op, st, pre, failed_batch):
     """how often the interesting regions of the filter-list operations are reached (evidence)"""
     key = W.flist_key(f)
     hashed = '/hashed' if pre['pieces'] is not None else ''
-    if st['res'] in ('re.error', 'IndexError'):
+    if st['res'] in ('re.error', 'IndexError', 'ValueError'):
         ctx.dist['flist-rejected/%s/%s' % (st['res'], f['o'])] += 1
         if st['res'] == 're.error' and f['o'] in ('extend', 'iaddAttr', 'setSlice'):
             failed_batch = True
@@ -670,6 +702,8 @@ def _count_flist(ctx, f, op, st, pre, failed_batch):
             spliced[f['i']] = vs[0]
         if len(W.dedup_first(spliced)) < len(spliced):
             ctx.dist['flist/assignment-drops-duplicates' + hashed] += 1
+    elif f['o'] == 'reverse':
+        ctx.dist['flist/reverse-of-%s-items%s' % (len(pre[key]) if len(pre[key]) < 3 else '3+', hashed)] += 1
     elif f['o'] == 'assignSelf':
         ctx.dist['flist/assign-self(%s)%s' % ('x=x' if f['route'] == 'attr' else 'l[:]=l', hashed)] += 1
         if pre[key]:
@@ -738,7 +772,7 @@ def run(ctx, drv):
         'relative File paths do not exist below the current directory (the empty-file filter of filter_files looks there); content trees contain no empty files',
         'glob patterns of the forms *s and *s* (fnmatch translated by hand) and regular expressions of five shapes (escaped literal, literal$, (?i)literal$, ^literal, [class]$) in the model; an invalid regular expression is any text re.compile rejects',
         're.error is the documented exception of the regex filter lists, IndexError that of lst[i] = v; the independent files-follow-filters clause uses patterns that are insensitive to the basepath.parent/filepath prefix quirk of filter_files (the model mirrors the quirk)',
-        'slice assignment on a filter list with non-negative bounds or an open end and step 1; index assignment with any integer',
+        'slice assignment / deletion on a filter list with non-negative bounds or an open end and step 1; index assignment, pop and insert with any integer; remove() is given an item of the stored type (a compiled pattern for the regex lists)',
         'calculate_piece_size: float log2/pow modelled on integers; compared for sizes < 2^40',
         'generate() stores the SHA-1 chunks of the current layout (C01) - checked here by an independent re-hash of the files',
         'is_ready ⇒ verify: C02 for the verification itself; here the real verify(path) is run',
